@@ -8,6 +8,10 @@ From display/graphics.py:
   * Graphics._draw_step - the two scaling statements `int(math.trunc(scale*s / 4.))`, the test for "no
     rotation", and the 180 degree branch (the 90/270/general branches use floats: excluded by the property);
   * Graphics._draw  - the expression the C command stores as the colour (clamped to the mode's attributes);
+  * Graphics._draw_step - the 90/270 degree branches and the aspect/yfac computation are only pinned textually
+    (they use doubles; model/Draw.v has an exact integer model of those double operations);
+  * Graphics._draw  - the X branch (nesting limit MAX_DRAW_DEPTH) pinned textually, the limit as a constant;
+  * Graphics._get_attr_index - the clamp P applies to its fill and border numbers;
   * Graphics.reset  - the initial scale and angle.
 From mlparser.py / base/tokens.py (dumped by importing the module): blanks, DIGITS, LETTERS, NAME_CHARS, SIGILS.
 From base/error.py: IFC, TYPE_MISMATCH.
@@ -97,7 +101,7 @@ def generate(repo):
     m = Module(os.path.join(repo, SOURCES[0]))
     errs = read_errors(repo)
     t = DrawTranslator(m, prefix='draw_', errors=errs)
-    for name in ('IFC', 'TYPE_MISMATCH'):
+    for name in ('IFC', 'TYPE_MISMATCH', 'OVERFLOW', 'OUT_OF_MEMORY', 'STX', 'SUBSCRIPT_OUT_OF_RANGE'):
         if name not in errs:
             raise Refuse('error.%s not found' % name)
         t.emit('Definition draw_%s : Z := %s.' % (name, zlit(errs[name])))
@@ -138,6 +142,30 @@ def generate(repo):
     t.emit('(* pcbasic/basic/display/graphics.py:%d *)' % assigns[1].lineno)
     t.emit('Definition draw_colour (v_num_attr : Z) (v_attr : Z) : Z := %s.' % term)
 
+    # --- the nesting limit of X substrings (module constant) and its use in _draw
+    depth = m.const_value('MAX_DRAW_DEPTH')
+    if not isinstance(depth, int) or not 0 <= depth <= 200:
+        raise Refuse('MAX_DRAW_DEPTH is not a small integer')
+    t.emit('Definition draw_max_depth : nat := %d%%nat.' % depth)
+    xsrc = [ast.unparse(n) for n in ast.walk(fn) if isinstance(n, ast.If)
+            and ast.unparse(n.test) == "c == b'X'"]
+    expect_x = ("if c == b'X':\n    sub = gmls.parse_string()\n    if depth >= MAX_DRAW_DEPTH:\n"
+                "        raise error.BASICError(error.OUT_OF_MEMORY)\n    self._draw(sub, depth + 1)")
+    if len(xsrc) != 1 or not xsrc[0].startswith(expect_x):
+        raise Refuse('Graphics._draw: the X branch changed: %r' % (xsrc,))
+
+    # --- Graphics._get_attr_index (used by P): -1 -> foreground, 0 -> 0, otherwise the clamp
+    gai = m.find('Graphics._get_attr_index')
+    rets = [n for n in ast.walk(gai) if isinstance(n, ast.Return)]
+    rets.sort(key=lambda n: n.lineno)
+    tests = [ast.unparse(n.test) for n in ast.walk(gai) if isinstance(n, ast.If)]
+    if sorted(tests) != sorted(['attr_index == -1', 'not attr_index']) or len(rets) != 3 \
+            or ast.unparse(rets[1]) != 'return 0':
+        raise Refuse('Graphics._get_attr_index changed shape')
+    term, ty = t.expr(rets[2].value, {'attr_index': ('v_attr_index', 'Z'), 'self._num_attr': ('v_num_attr', 'Z')})
+    t.emit('(* pcbasic/basic/display/graphics.py:%d (for attr_index other than -1 and 0) *)' % rets[2].lineno)
+    t.emit('Definition draw_attr_index (v_num_attr : Z) (v_attr_index : Z) : Z := %s.' % term)
+
     # --- Graphics._draw: direction table
     t.function('Graphics._draw', coqname='draw_dir_offset', param_types={'c': 'Z', 'step': 'Z'},
                stmts=(r'^x1, y1 = 0, 0$', r"^if c in \(b'L'"), ret=['x1', 'y1'])
@@ -155,6 +183,17 @@ def generate(repo):
         raise Refuse('Graphics._draw_step: rotation cases changed: %r' % (tests,))
     if not (len(chain[0][1]) == 1 and isinstance(chain[0][1][0], ast.Pass)):
         raise Refuse('Graphics._draw_step: the no-rotation branch is not `pass`')
+    # the quarter turns go through doubles (pixel aspect ratio): hand-modelled in model/Draw.v (`turn_quarter`)
+    # with an exact model of the double operations; the source text is pinned here
+    quarter = [ast.unparse(chain[1][1][0]) if len(chain[1][1]) == 1 else None,
+               ast.unparse(chain[3][1][0]) if len(chain[3][1]) == 1 else None]
+    if quarter != ['x1, y1 = (int(y1 * yfac), -int(x1 // yfac))', 'x1, y1 = (-int(y1 * yfac), int(x1 // yfac))']:
+        raise Refuse('Graphics._draw_step: the 90/270 degree branches changed: %r' % (quarter,))
+    pre = [ast.unparse(s_) for s_ in step.body if isinstance(s_, ast.Assign)
+           and ast.unparse(s_.targets[0]) in ('aspect', 'yfac')]
+    if pre != ['aspect = (self._mode.pixel_height * self._screen_aspect[0], '
+               'self._mode.pixel_width * self._screen_aspect[1])', 'yfac = float(aspect[1]) / float(aspect[0])']:
+        raise Refuse('Graphics._draw_step: aspect / yfac computation changed: %r' % (pre,))
     env = {'rotate': ('v_rotate', 'Z')}
     for cname, node in (('draw_rotate_none', chain[0][0]), ('draw_rotate_half', chain[2][0])):
         term, ty = t.expr(node, env)
